@@ -15,6 +15,10 @@ use crate::{
 
 pub const GROUP_PATTERNS: &[&str] = &[
     "(a)(b)?",
+    // whole-line matches
+    "^(.*)()$",
+    "(?P<all>.+)",
+    "^(foo|bar|a|ab)$",
     "(?P<x>\\w+)\\s+(?P<y>\\w+)",
     "(a|(b))c",
     "(x*)",
@@ -47,6 +51,11 @@ pub const TEMPLATE_PIECES: &[&str] = &[
 pub const ODD_BRACED: &[&str] = &["${a.b}", "${ 1}", "${}", "${x-y}", "${1 }"];
 
 pub fn gen_template(rng: &mut Rng) -> String {
+    // the empty template (deleting the matches) and templates that only
+    // refer to groups that may be empty: a line can be replaced by nothing
+    if rng.chance(1, 10) {
+        return rng.pick(&["", "$2", "${9}", "$nosuch"]).to_string();
+    }
     let n = rng.range(1, 4);
     let mut t = String::new();
     for _ in 0..n {
